@@ -1,21 +1,23 @@
 INIT Init
 NEXT Next
 CONSTANTS
-  Part = "single"
+  Part = "shared"
   MaxAlts = 1
   MaxSamples = 1
   MaxCalls = 1
   Correlated = FALSE
   AnsOpts = {}
   CmpReturns = {}
-  LeafAns = {"a0", "a12", "a1", "a1f", "a1p"}
-  LeafCmp = {"T", "F", "P", "d13"}
+  LeafAns = {"a0", "a12", "a1"}
+  LeafCmp = {"T", "P", "F"}
   TableGrades = {}
-  ListAns = {"a0", "a12", "a1", "a1f"}
-  MaxItems = 3
-  Layouts = {}
+  ListAns = {}
+  MaxItems = 1
+  Layouts = {"flat2"}
   TableOnly = {"g1212"}
+  AttOpts = {"none", "c12", "c1e4"}
   OkRecomputed = TRUE
+  ParentForcesChildDebug = FALSE
 INVARIANT InvStage
 INVARIANT InvRaisedNoVerdict
 INVARIANT InvGradesInUnit
@@ -27,4 +29,6 @@ INVARIANT InvNoLeak
 INVARIANT InvVerdictAgrees
 INVARIANT InvListOrder
 INVARIANT InvAllOrNothing
+INVARIANT InvAloneSameAsInList
+INVARIANT InvChildDebugAsConfigured
 INVARIANT InvReturnedWellFormed
